@@ -453,6 +453,7 @@ def verify_function(repo: Repo, ct: M.ClassTable, reg: Registry, con: Contract,
         ex.current_props = con.props
         ex.nothrow_props = c.raise_props or con.props
         fr.inputs = {k: (v.z if isinstance(v, (T, Kw)) else None) for k, v in c.args.items()}
+        fr.inputs.update(getattr(c, "extra_inputs", {}) or {})
         # cover: the precondition is satisfiable (vacuity guard)
         ex.obligations.append(Obligation(
             name=f"{con.qualname}:cover[requires]", kind="cover", assumptions=list(st.pc),
